@@ -19,7 +19,9 @@ def table():
         what = (m.get("summary") or m.get("what") or "").replace("|", "/").replace("\n", " ")
         needs = (m.get("needs") or "").replace("|", "/").replace("\n", " ")
         res = m.get("check_results", {}).get(prop)
-        if res:
+        if m.get("neutralised"):
+            det, how = "neutralised", m["neutralised"]
+        elif res:
             how = res.get("what") or ("exit %s" % res.get("exit"))
             det = "caught" if res.get("exit") else "MISSED"
         else:
